@@ -86,6 +86,21 @@ def run_unit(ctx, unit):
         for k in range(len(err0)):
             cases.append(("stderr-write", k, core.Case(args, data, efail=k)))
     unit_id = hash(data) & 0xFFFFFFFF
+    if vr.random() < 0.3:
+        # the same stream as a file (inside a directory argument, next to a second file): the output of such a run - rows and,
+        # under --on-error=stdout, error lines alike - is written to the same stdout, and a failing write ends the run
+        fargs = ["@D@/in"] + args
+        ffiles = [("in/a.json", data), ("in/b.json", b'{"later": 1}\n[2]\n')]
+        fbase = ctx.drv.run(core.Case(fargs, b"", files=ffiles))
+        if fbase.result not in ("timeout", "abort", "panic") and len(fbase.stdout) > 0:
+            fout = fbase.stdout
+            ks = range(len(fout)) if len(fout) <= 60 else sorted(set(vr.randrange(len(fout)) for _ in range(60)))
+            fcases = [("write-dir", k, core.Case(fargs, b"", files=ffiles, wfail=k)) for k in ks]
+            for c in fcases:
+                c[2].watchdog_ms = 8000
+            if _judge(ctx, unit, fargs, data, fbase, streaming, unit_id, fcases, ctx.drv.run_many([c for _, _, c in fcases])):
+                return
+            st.count("directory_input_fault_sets")
     # in chunks, so that a fault that makes jawk hang is reported after one confirmation instead of after a watchdog period
     # for every offset of the unit
     for c in cases:
